@@ -11,7 +11,9 @@ from   pyflyby._importstmt      import ImportFormatParams, ImportStatement
 from   pyflyby._log             import logger
 from   pyflyby._parse           import PythonBlock, _ast_str_literal_value
 from   pyflyby._util            import ImportPathCtx, Inf, NullCtx, memoize
+import io
 import re
+import tokenize
 
 from typing import Union, Optional, Literal
 
@@ -144,15 +146,22 @@ class SourceToSourceFileImportsTransformation(SourceToSourceTransformationBase):
     @staticmethod
     def _ends_with_line_continuation(text):
         """
-        Return whether ``text`` ends with a code line that is continued by a
-        backslash.  A comment line that merely ends in a backslash is not a
-        continuation.
+        Return whether ``text`` ends with a line that is continued by a
+        backslash.  A backslash that ends a comment (on a line of its own or
+        after code) is not a continuation.
         """
         joined = str(FileText(text).joined)
         if not joined.endswith("\\\n"):
             return False
-        last_line = joined[:-1].rsplit("\n", 1)[-1]
-        return re.sub("#.*", "", last_line).rstrip() != ""
+        last_lineno = joined.count("\n")
+        try:
+            for tok in tokenize.generate_tokens(io.StringIO(joined).readline):
+                if tok.type == tokenize.COMMENT and tok.end[0] == last_lineno:
+                    return False
+        except (tokenize.TokenError, SyntaxError):
+            # Expected: the text ends in the middle of a logical line.
+            pass
+        return True
 
     def find_import_block_by_lineno(self, lineno: int):
         """
